@@ -241,6 +241,8 @@ def concatHead (lens : List Nat) (ix : Ix) : Except Err (Bool × List (Nat × Na
       pure (false, r)
     else .error .other
   | .list l => do
+    -- negative entries are rejected (TypeError) before anything is read
+    if l.any (· < 0) then throw Err.type
     -- integer list: scatter by owning part; every output slot must be filled
     let inds := l.map (findIndexer starts)
     let filled ← (List.range nparts).mapM fun (p : Nat) => do
